@@ -62,9 +62,9 @@ func runC07(rc *RC) {
 			in.kind = "iq"
 			in.typ = []string{"get", "set", "get", "set", "result", "error"}[ch.Int("workload", 6)]
 		case k < 8:
-			in.kind, in.typ = "message", []string{"chat", "normal", "error"}[ch.Int("workload", 3)]
+			in.kind, in.typ = "message", []string{"chat", "normal", "error", "get", "set"}[ch.Int("workload", 5)]
 		default:
-			in.kind, in.typ = "presence", []string{"", "unavailable", "error"}[ch.Int("workload", 3)]
+			in.kind, in.typ = []string{"presence", "presence", "ctl"}[ch.Int("workload", 3)], []string{"", "unavailable", "error", "get", "set"}[ch.Int("workload", 5)]
 		}
 		if ch.Chance("workload", 1, 8) {
 			in.id = ""
@@ -82,6 +82,9 @@ func runC07(rc *RC) {
 		}
 		var sb strings.Builder
 		fmt.Fprintf(&sb, "<%s", in.kind)
+		if in.kind == "ctl" {
+			sb.WriteString(` xmlns="urn:verif:nonza"`) // a foreign-namespace top-level element
+		}
 		if in.typ != "" {
 			fmt.Fprintf(&sb, ` type="%s"`, in.typ)
 		}
@@ -173,8 +176,24 @@ func runC07(rc *RC) {
 		case "presence-then-error-reply":
 			parts, in.wrote = []xml.TokenReader{xmlstream.Wrap(nil, el("", "presence")), xmlstream.Wrap(nil, el("", "presence", "type", "unavailable")), reply("error", in.id)}, true
 		}
+		how := ch.Int("handler", 3) // 0 token copy, 1 Encode(marshaler), 2 EncodeElement(payload, start)
 		for _, p := range parts {
-			if _, err := xmlstream.Copy(t, p); err != nil {
+			var err error
+			switch how {
+			case 1:
+				err = t.Encode(readerMarshaler{p})
+			case 2:
+				tok, _ := p.Token()
+				st, ok := tok.(xml.StartElement)
+				if !ok {
+					continue
+				}
+				// EncodeElement ignores the start it is given (known C05 finding), so the value carries it as well
+				err = t.EncodeElement(readerMarshaler{xmlstream.MultiReader(xmlstream.Token(st), p)}, st)
+			default:
+				_, err = xmlstream.Copy(t, p)
+			}
+			if err != nil {
 				rc.Infraf("handler write failed: %v", err)
 			}
 		}
@@ -336,6 +355,10 @@ func runC07(rc *RC) {
 	rc.CheckPanics("C07.c1")
 	rc.Check("C07.c1", "stuck-after-teardown", len(stuck) == 0, "tasks still blocked after teardown: %v", stuck)
 }
+
+type readerMarshaler struct{ r xml.TokenReader }
+
+func (m readerMarshaler) TokenReader() xml.TokenReader { return m.r }
 
 // tee records the tokens read through it.
 type tee struct {
